@@ -156,7 +156,16 @@ JOIN_CHAIN = ["SELECT x.a, y.c, z.d FROM t1 AS x %s t2 AS y%s %s t3 AS z%s" % (j
               for j1 in _JK for j2 in _JK for k in ('y', 'x') if not (j2 == 'CROSS JOIN' and k == 'x')]
 JOIN_CHAIN += ["SELECT x.a, y.c, z.d, w.b FROM t1 AS x %s t2 AS y ON x.id = y.id %s t3 AS z ON z.id = y.id %s t1 AS w ON w.id = z.id" % (j1, j2, j3)
                for j1, j2, j3 in (('FULL JOIN', 'JOIN', 'LEFT JOIN'), ('LEFT JOIN', 'FULL JOIN', 'JOIN'), ('JOIN', 'LEFT JOIN', 'FULL JOIN'), ('FULL JOIN', 'LEFT JOIN', 'JOIN'))]
-SELECTS = SELECTS + ORDER_GEN + SETOP_TAIL + GROUP_GEN + WINDOW_GEN + SUBQ_GEN + OPPAIR_GEN + SETOP_NEST + JOIN_CHAIN
+# NULL literals: a predicate over a NULL literal is neither true nor false; every predicate form with a NULL literal operand, in positions that
+# tell NULL from FALSE (select list, under NOT, under IS NULL, as a CASE condition) and in the filters of SELECT / DELETE / UPDATE
+_NULL_PRED = ['a IN (1, NULL)', 'a NOT IN (1, NULL)', 'a IN (NULL)', 'a IN (NULL, b)', 'a IN (1, b, NULL)', 'a = NULL', 'a != NULL', 'NULL = NULL', 'a > NULL',
+              'a BETWEEN NULL AND 2', 'a BETWEEN 1 AND NULL', 'NULL IS NULL', 'a LIKE NULL', 'coalesce(NULL, a) = 1', 'a + NULL = 1', 'NULL AND a = 1', 'NULL OR a = 1',
+              'CASE WHEN NULL THEN 1 ELSE 2 END = 2', 'CASE a WHEN NULL THEN 1 ELSE 2 END = 2', 'a IN (1, NULL) OR b = 1', 'a IN (1, NULL) AND b = 1']
+_NULL_CTX = ['SELECT id, {P} AS x FROM t1', 'SELECT id FROM t1 WHERE {P}', 'SELECT id FROM t1 WHERE NOT ({P})', 'SELECT id, ({P}) IS NULL AS x FROM t1',
+             'SELECT id, CASE WHEN {P} THEN 1 WHEN NOT ({P}) THEN 2 ELSE 3 END AS x FROM t1', 'SELECT id, NOT ({P}) AS x FROM t1']
+NULL_GEN = [c.replace('{P}', p_) for c in _NULL_CTX for p_ in _NULL_PRED]
+NULL_DML = [c.replace('{P}', p_) for c in ('DELETE FROM t1 WHERE NOT ({P})', 'UPDATE t1 SET a = 0 WHERE NOT ({P})', 'DELETE FROM t1 WHERE {P}') for p_ in _NULL_PRED[:8]]
+SELECTS = SELECTS + ORDER_GEN + SETOP_TAIL + GROUP_GEN + WINDOW_GEN + SUBQ_GEN + OPPAIR_GEN + SETOP_NEST + JOIN_CHAIN + NULL_GEN
 
 DML = [
     "DELETE FROM t1 WHERE a > 1",
@@ -174,7 +183,7 @@ DML = [
     "DELETE FROM t1 WHERE a = 0",
     "DELETE FROM t1",
 ]
-DML = DML + SUBQ_DML
+DML = DML + SUBQ_DML + NULL_DML
 
 
 def render(sql, dialect):
